@@ -48,6 +48,14 @@ pub fn run(out: &mut Out, seed: u64, tier: &str) {
         m.name = format!("tie-{}", m.name);
         mols.push(m);
     } } }
+    // idealised shells around elements whose type is chosen by an angle (P, S, As, Sb, five-coordinate metals): trigonal bipyramid with
+    // the axial pair listed first, square, T-shape, octahedron, pentagonal bipyramid — exact and slightly distorted
+    for zc in [15usize, 16, 33, 51, 22, 26, 42, 75] { for zl in [9usize, 17, 1] { for geometry in ["tbp", "square", "tshape", "octahedral", "pbp"] {
+        if tier != "thorough" && (zc + zl + geometry.len()) % 3 != 0 && geometry != "tbp" { continue; }
+        let c = centre(zc, zl, geometry, 1.0);
+        mols.push(distort(&c, 0.02, &mut rng));
+        mols.push(c);
+    } } }
     let (mut n, mut multi) = (0usize, 0usize);
     for m in mols.iter() {
         if m.n() > 20 || m.min_distance() < 0.5 { continue; }
